@@ -118,14 +118,34 @@ func (d *Duration) UnmarshalText(text []byte) error {
 			out += time.Duration(m) * time.Minute
 		}
 		if match[3] != "" {
-			s, err := strconv.ParseFloat(match[3], 64)
+			s, err := parseSeconds(match[3])
 			if err != nil {
 				return fmt.Errorf("invalid duration seconds (%s): %s", text, err)
 			}
-			out += time.Duration(s * float64(time.Second))
+			out += s
 		}
 	}
 
 	*d = Duration(sign * out)
 	return nil
+}
+
+// parseSeconds parses a decimal number of seconds ("12" or "12.345") exactly,
+// without going through floating point. Digits beyond nanosecond resolution
+// are truncated.
+func parseSeconds(text string) (time.Duration, error) {
+	whole, frac, _ := strings.Cut(text, ".")
+	s, err := strconv.Atoi(whole)
+	if err != nil {
+		return 0, err
+	}
+	if len(frac) > 9 {
+		frac = frac[:9]
+	}
+	frac += strings.Repeat("0", 9-len(frac))
+	ns, err := strconv.Atoi(frac)
+	if err != nil {
+		return 0, err
+	}
+	return time.Duration(s)*time.Second + time.Duration(ns), nil
 }
